@@ -54,15 +54,67 @@ fn reference(in_frag: bool, fin: bool, op: u8) -> (Want, bool) {
     }
 }
 
-/// `fin`/`op` are CONCRETE per call (the frame bytes are then concrete and Parser::parse folds away; a
-/// symbolic opcode makes CBMC encode every arm including tracing's formatting machinery: >20 GB);
-/// the codec's flag state, the payload byte and the mask stay symbolic.
-fn decode_lemma(server: bool, with_payload: bool, fin: bool, op: u8) {
-    let in_frag: bool = kani::any();
-    let w_frag: bool = kani::any();
-    // a Close frame WITH payload runs String::from_utf8_lossy (parse_close_payload), which alone exhausts
-    // CBMC's memory; close payload parsing is outside the claim
-    kani::assume(!(with_payload && op == 8));
+/// The frame handed to the codec.  Under Kani `Parser::parse` is replaced by `stub_parse`, which returns
+/// exactly this frame (the parser itself is decided by the c14_parse_* / c14_header_* harnesses; running
+/// it again underneath the codec makes CBMC encode every opcode arm of the parser including
+/// `String::from_utf8_lossy` for close payloads: >350 s of symbolic execution for ONE concrete frame).
+/// The harness also writes the matching wire bytes into `src`, so a native replay (where the stub is
+/// not applied and the real parser runs) sees the same frame.
+static mut NEXT_FIN: bool = false;
+static mut NEXT_OP: u8 = 0;
+static mut NEXT_BYTE: u8 = 0;
+
+fn valid_op(op: u8) -> bool {
+    matches!(op, 0 | 1 | 2 | 8 | 9 | 10)
+}
+
+/// frame without payload (two stubs rather than a flag: whether a payload exists must be syntactically
+/// concrete, otherwise CBMC encodes close-payload parsing, i.e. String::from_utf8_lossy)
+fn stub_parse_empty(
+    src: &mut BytesMut,
+    _server: bool,
+    _max_size: usize,
+) -> Result<Option<(bool, OpCode, Option<BytesMut>)>, ProtocolError> {
+    let (fin, op) = unsafe { (NEXT_FIN, NEXT_OP) };
+    src.clear();
+    // single return site: with an additional `Err` return the payload field of the merged return value
+    // is no longer a constant `None` for CBMC.  A reserved opcode is handed over as `OpCode::Bad`, which
+    // the codec rejects like the real parser rejects the raw opcode.
+    Ok(Some((fin, OpCode::from(op), None)))
+}
+
+/// frame with a one-byte payload
+fn stub_parse_payload(
+    src: &mut BytesMut,
+    _server: bool,
+    _max_size: usize,
+) -> Result<Option<(bool, OpCode, Option<BytesMut>)>, ProtocolError> {
+    let (fin, op, byte) = unsafe { (NEXT_FIN, NEXT_OP, NEXT_BYTE) };
+    src.clear();
+    let mut p = BytesMut::with_capacity(1);
+    p.extend_from_slice(&[byte]);
+    Ok(Some((fin, OpCode::from(op), Some(p))))
+}
+
+/// fin, opcode (all 16), payload byte and mask symbolic; the codec's two fragment flags are enumerated
+/// concretely by the callers (a symbolic flags byte makes `flags.contains(SERVER)` symbolic for CBMC,
+/// which then encodes both roles' paths with symbolic buffer sizes: 57 GB measured).
+fn decode_lemma(server: bool, with_payload: bool, in_frag: bool, w_frag: bool) {
+    decode_lemma_op(server, with_payload, in_frag, w_frag, None)
+}
+
+/// `cop`: concrete opcode.  Frames WITH payload are run with a concrete opcode other than Close: with a
+/// symbolic opcode CBMC encodes `parse_close_payload` (String::from_utf8_lossy) even though the harness
+/// excludes close payloads, and does not finish in 25 min.
+fn decode_lemma_op(server: bool, with_payload: bool, in_frag: bool, w_frag: bool, cop: Option<u8>) {
+    let fin: bool = kani::any();
+    let op: u8 = match cop {
+        Some(o) => o,
+        None => kani::any(),
+    };
+    kani::assume(op <= 15);
+    // close payload parsing (from_utf8_lossy) is outside the claim
+    assert!(!(with_payload && (cop.is_none() || op == 8)), "harness instance: payload frames use a concrete non-close opcode");
     let pay: u8 = kani::any();
     let mask: [u8; 4] = kani::any();
     let mut flags = Flags::empty();
@@ -95,6 +147,12 @@ fn decode_lemma(server: bool, with_payload: bool, fin: bool, op: u8) {
         n += 1;
     }
     let mut src = BytesMut::from(&frame[..n]);
+    let plain = if server { pay ^ mask[0] } else { pay };
+    unsafe {
+        NEXT_FIN = fin;
+        NEXT_OP = op;
+        NEXT_BYTE = plain;
+    }
 
     let r = codec.decode(&mut src);
 
@@ -103,7 +161,6 @@ fn decode_lemma(server: bool, with_payload: bool, fin: bool, op: u8) {
     if in_frag && fin && (op == 1 || op == 2) {
         assert!(r.is_err(), "a complete data frame inside a fragmented message must be rejected (RFC 6455 5.4)");
     }
-    let plain = if server { pay ^ mask[0] } else { pay };
     let payload_ok = |b: &Bytes| if with_payload { b.len() == 1 && b[0] == plain } else { b.is_empty() };
     match &r {
         Err(_) => assert!(want == Want::Err, "frame rejected only if it violates RFC 6455 framing rules"),
@@ -131,7 +188,6 @@ fn decode_lemma(server: bool, with_payload: bool, fin: bool, op: u8) {
     assert!(codec.flags.contains(Flags::SERVER) == server);
     kani::cover!(want == Want::Err && op == 0, "continuation without start");
     kani::cover!(want == Want::Err && (op == 1 || op == 2) && !fin, "non-final start inside a fragmented message");
-    kani::cover!(want == Want::Err && (op == 1 || op == 2) && fin, "unfragmented message inside a fragmented message");
     kani::cover!(want == Want::Err && op >= 8 && op <= 10, "fragmented control frame");
     kani::cover!(want == Want::Err && op > 10, "reserved opcode");
     kani::cover!(want == Want::Last, "last fragment");
@@ -168,8 +224,7 @@ enum Msg {
 
 /// Encoder side (server role: unmasked): the writer's fragment state machine and the (fin, opcode)
 /// it puts on the wire; then the client-side decoder accepts exactly that frame.
-fn encode_lemma(m: Msg) {
-    let w_frag: bool = kani::any();
+fn encode_lemma(m: Msg, w_frag: bool) {
     let mut flags = Flags::SERVER;
     if w_frag {
         flags.insert(Flags::W_CONTINUATION);
@@ -232,134 +287,98 @@ fn encode_lemma(m: Msg) {
 
 #[kani::proof]
 #[kani::stub(tracing::callsite::DefaultCallsite::register, stub_tracing_register)]
+#[kani::stub(Parser::parse, stub_parse_empty)]
 #[kani::unwind(10)]
-fn c14_codec_decode_client_role_empty_final() {
-    decode_lemma(false, false, true, 0);
-    decode_lemma(false, false, true, 1);
-    decode_lemma(false, false, true, 2);
-    decode_lemma(false, false, true, 8);
-    decode_lemma(false, false, true, 9);
-    decode_lemma(false, false, true, 10);
-    decode_lemma(false, false, true, 3);
-    decode_lemma(false, false, true, 15);
+fn c14_codec_decode_client_role_empty_frames() {
+    decode_lemma(false, false, false, false);
+    decode_lemma(false, false, false, true);
+    decode_lemma(false, false, true, false);
+    decode_lemma(false, false, true, true);
 }
 
 #[kani::proof]
 #[kani::stub(tracing::callsite::DefaultCallsite::register, stub_tracing_register)]
+#[kani::stub(Parser::parse, stub_parse_payload)]
 #[kani::unwind(10)]
-fn c14_codec_decode_client_role_empty_nonfinal() {
-    decode_lemma(false, false, false, 0);
-    decode_lemma(false, false, false, 1);
-    decode_lemma(false, false, false, 2);
-    decode_lemma(false, false, false, 8);
-    decode_lemma(false, false, false, 9);
-    decode_lemma(false, false, false, 10);
-    decode_lemma(false, false, false, 3);
-    decode_lemma(false, false, false, 15);
+fn c14_codec_decode_client_role_payload_frames() {
+    decode_lemma_op(false, true, false, false, Some(0));
+    decode_lemma_op(false, true, false, false, Some(1));
+    decode_lemma_op(false, true, false, false, Some(2));
+    decode_lemma_op(false, true, false, false, Some(9));
+    decode_lemma_op(false, true, false, false, Some(10));
+    decode_lemma_op(false, true, false, false, Some(3));
+    decode_lemma_op(false, true, true, false, Some(0));
+    decode_lemma_op(false, true, true, false, Some(1));
+    decode_lemma_op(false, true, true, false, Some(2));
+    decode_lemma_op(false, true, true, false, Some(9));
+    decode_lemma_op(false, true, true, false, Some(10));
+    decode_lemma_op(false, true, true, false, Some(3));
 }
 
 #[kani::proof]
 #[kani::stub(tracing::callsite::DefaultCallsite::register, stub_tracing_register)]
+#[kani::stub(Parser::parse, stub_parse_empty)]
 #[kani::unwind(10)]
-fn c14_codec_decode_client_role_payload_final() {
-    decode_lemma(false, true, true, 0);
-    decode_lemma(false, true, true, 1);
-    decode_lemma(false, true, true, 2);
-    decode_lemma(false, true, true, 9);
-    decode_lemma(false, true, true, 10);
-    decode_lemma(false, true, true, 3);
-    decode_lemma(false, true, true, 15);
+fn c14_codec_decode_server_role_empty_frames() {
+    decode_lemma(true, false, false, false);
+    decode_lemma(true, false, false, true);
+    decode_lemma(true, false, true, false);
+    decode_lemma(true, false, true, true);
 }
 
 #[kani::proof]
 #[kani::stub(tracing::callsite::DefaultCallsite::register, stub_tracing_register)]
+#[kani::stub(Parser::parse, stub_parse_payload)]
 #[kani::unwind(10)]
-fn c14_codec_decode_client_role_payload_nonfinal() {
-    decode_lemma(false, true, false, 0);
-    decode_lemma(false, true, false, 1);
-    decode_lemma(false, true, false, 2);
-    decode_lemma(false, true, false, 9);
-    decode_lemma(false, true, false, 10);
-    decode_lemma(false, true, false, 3);
-    decode_lemma(false, true, false, 15);
+fn c14_codec_decode_server_role_payload_frames() {
+    decode_lemma_op(true, true, false, false, Some(0));
+    decode_lemma_op(true, true, false, false, Some(1));
+    decode_lemma_op(true, true, false, false, Some(2));
+    decode_lemma_op(true, true, false, false, Some(9));
+    decode_lemma_op(true, true, false, false, Some(10));
+    decode_lemma_op(true, true, false, false, Some(3));
+    decode_lemma_op(true, true, true, false, Some(0));
+    decode_lemma_op(true, true, true, false, Some(1));
+    decode_lemma_op(true, true, true, false, Some(2));
+    decode_lemma_op(true, true, true, false, Some(9));
+    decode_lemma_op(true, true, true, false, Some(10));
+    decode_lemma_op(true, true, true, false, Some(3));
 }
 
-#[kani::proof]
-#[kani::stub(tracing::callsite::DefaultCallsite::register, stub_tracing_register)]
-#[kani::unwind(10)]
-fn c14_codec_decode_server_role_empty_final() {
-    decode_lemma(true, false, true, 0);
-    decode_lemma(true, false, true, 1);
-    decode_lemma(true, false, true, 2);
-    decode_lemma(true, false, true, 8);
-    decode_lemma(true, false, true, 9);
-    decode_lemma(true, false, true, 10);
-    decode_lemma(true, false, true, 3);
-    decode_lemma(true, false, true, 15);
-}
-
-#[kani::proof]
-#[kani::stub(tracing::callsite::DefaultCallsite::register, stub_tracing_register)]
-#[kani::unwind(10)]
-fn c14_codec_decode_server_role_empty_nonfinal() {
-    decode_lemma(true, false, false, 0);
-    decode_lemma(true, false, false, 1);
-    decode_lemma(true, false, false, 2);
-    decode_lemma(true, false, false, 8);
-    decode_lemma(true, false, false, 9);
-    decode_lemma(true, false, false, 10);
-    decode_lemma(true, false, false, 3);
-    decode_lemma(true, false, false, 15);
-}
-
-#[kani::proof]
-#[kani::stub(tracing::callsite::DefaultCallsite::register, stub_tracing_register)]
-#[kani::unwind(10)]
-fn c14_codec_decode_server_role_payload_final_t() {
-    decode_lemma(true, true, true, 0);
-    decode_lemma(true, true, true, 1);
-    decode_lemma(true, true, true, 2);
-    decode_lemma(true, true, true, 9);
-    decode_lemma(true, true, true, 10);
-    decode_lemma(true, true, true, 3);
-    decode_lemma(true, true, true, 15);
-}
-
-#[kani::proof]
-#[kani::stub(tracing::callsite::DefaultCallsite::register, stub_tracing_register)]
-#[kani::unwind(10)]
-fn c14_codec_decode_server_role_payload_nonfinal_t() {
-    decode_lemma(true, true, false, 0);
-    decode_lemma(true, true, false, 1);
-    decode_lemma(true, true, false, 2);
-    decode_lemma(true, true, false, 9);
-    decode_lemma(true, true, false, 10);
-    decode_lemma(true, true, false, 3);
-    decode_lemma(true, true, false, 15);
-}
-
+// the writer's state space (message kind x fragment flag) is enumerated completely
 #[kani::proof]
 #[kani::stub(tracing::callsite::DefaultCallsite::register, stub_tracing_register)]
 #[kani::stub(rand::random, stub_random)]
 #[kani::unwind(10)]
 fn c14_codec_encode_messages() {
-    encode_lemma(Msg::Text);
-    encode_lemma(Msg::Binary);
-    encode_lemma(Msg::Ping);
-    encode_lemma(Msg::Pong);
-    encode_lemma(Msg::Close);
-    encode_lemma(Msg::Nop);
+    encode_lemma(Msg::Text, false);
+    encode_lemma(Msg::Text, true);
+    encode_lemma(Msg::Binary, false);
+    encode_lemma(Msg::Binary, true);
+    encode_lemma(Msg::Ping, false);
+    encode_lemma(Msg::Ping, true);
+    encode_lemma(Msg::Pong, false);
+    encode_lemma(Msg::Pong, true);
+    encode_lemma(Msg::Close, false);
+    encode_lemma(Msg::Close, true);
+    encode_lemma(Msg::Nop, false);
+    encode_lemma(Msg::Nop, true);
 }
 
+// the writer's state space (message kind x fragment flag) is enumerated completely
 #[kani::proof]
 #[kani::stub(tracing::callsite::DefaultCallsite::register, stub_tracing_register)]
 #[kani::stub(rand::random, stub_random)]
 #[kani::unwind(10)]
 fn c14_codec_encode_fragments() {
-    encode_lemma(Msg::FirstText);
-    encode_lemma(Msg::FirstBinary);
-    encode_lemma(Msg::Continue);
-    encode_lemma(Msg::Last);
+    encode_lemma(Msg::FirstText, false);
+    encode_lemma(Msg::FirstText, true);
+    encode_lemma(Msg::FirstBinary, false);
+    encode_lemma(Msg::FirstBinary, true);
+    encode_lemma(Msg::Continue, false);
+    encode_lemma(Msg::Continue, true);
+    encode_lemma(Msg::Last, false);
+    encode_lemma(Msg::Last, true);
 }
 
 #[cfg(test)]
@@ -368,4 +387,6 @@ mod playback {
     use super::*;
     include!(concat!(env!("VERIF_PLAYBACK"), "/actix_http__ws_codec.rs"));
 }
+
+
 
